@@ -406,6 +406,12 @@ class Lowerer:
 
     def rtype_s(self, s):
         s = strip_sfinae(s)
+        # clang prints a reference to an array that comes from a substituted template parameter (`const T&` with T = char[8]) as
+        # 'const char &[8]'.  No C++ type is spelled that way (arrays of references do not exist), so the only reading is the
+        # reference to the array, 'const char (&)[8]'.
+        m = re.match(r'^(.*?[^&\s])\s*(&&?)((?:\[\d*\])+)$', s)
+        if m:
+            s = '%s (%s)%s' % (m.group(1), m.group(2), m.group(3))
         try:
             return self.resolve(T.parse(s))
         except T.TypeError_ as e:
